@@ -186,6 +186,7 @@ typedef struct sim_knobs {
 	int pipe_size;       /* F_SETPIPE_SZ for pipe2 seams, 0 = leave */
 	int ncpu;            /* sysconf(_SC_NPROCESSORS_CONF) */
 	int dtablesize;      /* getdtablesize() */
+	int realloc_inplace; /* allocator front: 16 byte granules that grow in place (1) or every realloc moves (0) */
 	int tolerate_bad_close; /* close() of a descriptor unknown to the ledger is answered EBADF and counted, not a violation
 	                         (set while control calls race from another thread: the statement promises nothing there) */
 } sim_knobs_t;
